@@ -27,13 +27,15 @@ class Scenario:
         self.meta = {}                             # uid -> dict(kind, dests, len, parent, epoch, origin)
         self.nbar = 0
         self.flags = 0
+        self.cyclic = False                        # ranks placed on the nodes round-robin instead of in blocks
 
     def cap(self):
         return self.bufkb * 1024
 
     def text(self):
         out = ['# kind=%s n=%d ppn=%d routing=%s bufkb=%d nirecv=%d irecvkb=%d nisw=%d freq=%d eager=%d policy=%s seed=%d' % (
-            self.kind, self.n, self.ppn, self.routing, self.bufkb, self.nirecv, self.irecvkb, self.nisw, self.freq, self.eager, self.policy, self.seed)]
+            self.kind, self.n, self.ppn, self.routing, self.bufkb, self.nirecv, self.irecvkb, self.nisw, self.freq, self.eager, self.policy, self.seed)
+               + (' placement=round-robin' if self.cyclic else '')]
         for r in range(self.n):
             out.append('main %d : %s' % (r, ' '.join(' '.join(map(str, a)) for a in self.main[r])))
         for u, acts in sorted(self.msg.items()):
@@ -345,7 +347,36 @@ def gen_amplify(rng, idx):
     s.nbar = 1
     return s
 
-GENERATORS = {'amplify': gen_amplify, 'collective': gen_collective, 'mixed': gen_mixed, 'aggregate': gen_aggregate, 'stream': gen_stream, 'storm': gen_handler_storm, 'masked': gen_masked}
+def gen_cyclic(rng, idx):
+    """C05 / C01: ranks placed on the nodes round-robin (mpirun --map-by node): rank r is on node r mod nodes.  Broadcasts
+    from every origin (also from handlers) mixed with point-to-point traffic, more nodes than ranks per node included."""
+    nodes, ppn = [(3, 2), (5, 2), (4, 3), (2, 3), (3, 1), (7, 2), (4, 2), (2, 2)][idx % 8]
+    n = nodes * ppn
+    s = Scenario(n, ppn, ROUTINGS[(idx // 8) % 3] if idx < 24 else rng.choice(ROUTINGS), rng.choice([0, 1, 16384]), policy=rng.choice(POLICIES),
+                 seed=rng.randrange(1, 1 << 30), kind='cyclic', nirecv=rng.choice([2, 8]), nisw=rng.choice([0, 4]), freq=rng.choice([0, 8]),
+                 eager=rng.choice([0, 4096]))
+    s.cyclic = True
+    u = 100
+    for r in range(n):
+        if n <= 8 or rng.random() < 0.6:
+            u += 1
+            ln = rng.choice([0, 5, 100])
+            s.main[r].append(['B', u, ln]); s.meta[u] = dict(kind='B', dests=list(range(n)), len=ln, parent=-1, epoch=1, origin=r); s.msg[u] = []
+        for _ in range(rng.choice([0, 1, 3])):
+            u += 1
+            d = rng.randrange(n)
+            ln = rng.choice([0, 40, 600])
+            acts = []
+            if rng.random() < 0.25:        # a broadcast issued by a handler
+                c = u * 1000 + 1
+                acts.append(['B', c, 3]); s.meta[c] = dict(kind='B', dests=list(range(n)), len=3, parent=u, epoch=1); s.msg[c] = []
+            s.main[r].append(['A', d, u, ln]); s.meta[u] = dict(kind='A', dests=[d], len=ln, parent=-1, epoch=1, origin=r); s.msg[u] = acts
+    for r in range(n):
+        s.main[r].append(['BAR'])
+    s.nbar = 1
+    return s
+
+GENERATORS = {'cyclic': gen_cyclic, 'amplify': gen_amplify, 'collective': gen_collective, 'mixed': gen_mixed, 'aggregate': gen_aggregate, 'stream': gen_stream, 'storm': gen_handler_storm, 'masked': gen_masked}
 
 def expected_execs(s):
     """uid -> list of ranks on which the handler must run (with multiplicity)."""
@@ -374,7 +405,7 @@ def run_scenario(s, keep_logs=False, glog=False):
     scn = os.path.join(d, 'scenario.scn')
     with open(scn, 'w') as fh:
         fh.write(s.text())
-    r = simrun(exe, s.n, [scn], ppn=s.ppn, seed=s.seed, policy=s.policy, env=s.env(), eager=s.eager, logdir=d,
+    r = simrun(exe, s.n, [scn], ppn=s.ppn, cyclic=s.cyclic, seed=s.seed, policy=s.policy, env=s.env(), eager=s.eager, logdir=d,
                glog=os.path.join(d, 'glog') if glog else None, wall=40, spin=300000)
     notes = []
     for rk in range(s.n):
@@ -413,7 +444,7 @@ def gen_suite(seed, tier, kinds):
     rng = random.Random(seed * 7919 + 13)
     quick = tier == 'quick'
     counts = {'collective': 1, 'mixed': 60 if quick else 1200, 'aggregate': 16 if quick else 200, 'stream': 12 if quick else 150,
-              'storm': 20 if quick else 300, 'masked': 14 if quick else 200, 'amplify': 4 if quick else 40}
+              'storm': 20 if quick else 300, 'masked': 14 if quick else 200, 'amplify': 4 if quick else 40, 'cyclic': 16 if quick else 120}
     out = []
     for k in kinds:
         for i in range(counts[k]):
@@ -635,19 +666,23 @@ def oracle_capacity(s, r):
     return bad
 
 def oracle_layout(s, r):
-    """The layout tables every rank built equal the block placement (ties Layout.block_layout to layout.hpp)."""
+    """The layout tables every rank built equal the placement's (ties Layout.block_layout / Bcast.placed_layout to layout.hpp)."""
     bad = []
     n, p = s.n // s.ppn, s.ppn
-    for step, rk, seq, tag, rest in r['notes']:
+    if getattr(s, 'cyclic', False):
+        nd, lc, rk, name = (lambda x: x % n), (lambda x: x // n), (lambda a, l: l * n + a), 'round-robin'
+    else:
+        nd, lc, rk, name = (lambda x: x // p), (lambda x: x % p), (lambda a, l: a * p + l), 'block'
+    for step, rank, seq, tag, rest in r['notes']:
         if tag == 'LAYOUT':
             kv = parse_kv(rest)
-            exp = {'size': str(s.n), 'rank': str(rk), 'nodes': str(n), 'node': str(rk // p), 'lsize': str(p), 'lid': str(rk % p),
-                   'strided': ''.join('%d,' % (a * p + rk % p) for a in range(n)),
-                   'locals': ''.join('%d,' % ((rk // p) * p + l) for l in range(p)),
-                   'r2n': ''.join('%d,' % (x // p) for x in range(s.n)), 'r2l': ''.join('%d,' % (x % p) for x in range(s.n))}
+            exp = {'size': str(s.n), 'rank': str(rank), 'nodes': str(n), 'node': str(nd(rank)), 'lsize': str(p), 'lid': str(lc(rank)),
+                   'strided': ''.join('%d,' % rk(a, lc(rank)) for a in range(n)),
+                   'locals': ''.join('%d,' % rk(nd(rank), l) for l in range(p)),
+                   'r2n': ''.join('%d,' % nd(x) for x in range(s.n)), 'r2l': ''.join('%d,' % lc(x) for x in range(s.n))}
             for k, v in exp.items():
                 if kv.get(k) != v:
-                    bad.append(fail(s, r, 'layout table %s on rank %d is %s, block placement gives %s' % (k, rk, kv.get(k), v), level='model'))
+                    bad.append(fail(s, r, 'layout table %s on rank %d is %s, %s placement gives %s' % (k, rank, kv.get(k), name, v), level='model'))
                     break
     return bad
 
